@@ -280,6 +280,15 @@ func (fr *Frame) inLoop(b *ssa.BasicBlock) bool {
 
 func (fr *Frame) nilCheck(p Val, reach string, pos token.Pos, what string) {
 	g := fr.g
+	if p.Loc != nil && p.NilIf != "" {
+		c := sNot(p.NilIf)
+		if fr.panics {
+			g.oblige("panic", fr.oname("panic", "nil-"+what+"@"+fr.posTag(pos)), "panic", fr.props, reach, c, "nil dereference: "+what, pos)
+		} else {
+			g.assume(sImp(reach, c))
+		}
+		return
+	}
 	if p.T == "" || p.Loc != nil {
 		return
 	}
@@ -423,10 +432,18 @@ func (fr *Frame) binop(x *ssa.BinOp, st *State, reach string) Val {
 					other = a
 				}
 				if other.T == "0" {
-					if x.Op == token.EQL {
-						return Val{T: "false", Go: rt, Sort: SBool}
+					addr := a
+					if a.T != "" {
+						addr = b
 					}
-					return Val{T: "true", Go: rt, Sort: SBool}
+					isNil := "false"
+					if addr.NilIf != "" {
+						isNil = addr.NilIf
+					}
+					if x.Op == token.EQL {
+						return Val{T: isNil, Go: rt, Sort: SBool}
+					}
+					return Val{T: sNot(isNil), Go: rt, Sort: SBool}
 				}
 				return fr.havocVal(rt, "addrcmp", st)
 			}
